@@ -192,6 +192,7 @@ def cases_for(sh, rng):
             idx = [{"tensor": {"shape": [2], "data": [0, v if p == pos else 0]}} for p in range(nd)]
             cs.append({"op": "getitem_alltensor", "kind": "%s_%s" % (kind, where), "arg": {"idx": idx}})
     cs.append({"op": "getitem_int", "kind": "too_many", "arg": {"idx": [{"int": 0}] * (nd + 1)}})
+    cs += index_family_cases(sh)
     # constructors with a dense counterpart (checked by _check_args under settings.debug, or lazily by _size)
     for kind, s in matmul_operands(B, m, n):
         if len(s) >= 2:
@@ -202,6 +203,63 @@ def cases_for(sh, rng):
         for op in ("solve", "inv_quad", "inv_quad_logdet", "logdet", "cholesky", "root_decomposition",
                    "root_inv_decomposition", "diagonalization"):
             cs.append({"op": op, "kind": "nonsquare", "arg": tspec(rng, [m, 2])})
+    return cs
+
+
+INDEX_DTYPES = ("int32", "int16", "int8", "uint8")     # besides the default int64; kept only where torch accepts them as index
+
+
+def index_family_cases(sh):
+    """out-of-range index cells varied over the index DTYPE (everything torch may accept as an index: the harness probes
+    torch on the dense tensor with an in-range index of the same dtype / container and drops the cell when torch refuses the
+    dtype itself — a legacy uint8 mask, int16 / int8 on this torch) and over the index CONTAINER (tensor, python list, 0-d
+    tensor), on the absorbed path (row and column both tensors; batch dimensions sliced or indexed too) and the mixed paths
+    (one tensor, the rest slices / ints)."""
+    nd = len(sh)
+    S = {"slice": None}
+    cs = []
+
+    def T(vals, dt):
+        return {"tensor": {"shape": [len(vals)], "data": list(vals)}, "dtype": dt}
+
+    def add(op, kind, idx, dt, cont):
+        cs.append({"op": op, "kind": kind, "arg": {"idx": idx}, "idx_dtype": dt, "idx_container": cont, "probe": True})
+    for pos in range(nd):
+        size = sh[pos]
+        where = "pos%d" % (pos - nd)
+        for kind, v in (("ge", size), ("lt", -size - 1), ("ok_last", size - 1)):
+            for dt in INDEX_DTYPES:
+                if v < 0 and dt == "uint8":
+                    continue
+                k = "%s_%s" % (kind, where)
+                # one tensor index, slices elsewhere (interpolation / _getitem path)
+                add("getitem_tensor", k, [S] * pos + [T([0, v], dt)] + [S] * (nd - pos - 1), dt, "tensor")
+                # every dimension a tensor (absorbed _get_indices path)
+                add("getitem_alltensor", k, [T([0, v if p == pos else 0], dt) for p in range(nd)], dt, "tensor")
+                # row and column tensors, batch dimensions sliced (absorbed path of batched operators)
+                if nd > 2 and pos >= nd - 2:
+                    add("getitem_rowcol", k, [S] * (nd - 2) + [T([0, v if p == pos else 0], dt) for p in (nd - 2, nd - 1)],
+                        dt, "tensor")
+            # mixed dtypes on the absorbed path: the out-of-range index int32, the others int64
+            if kind != "ok_last":
+                add("getitem_alltensor", "%s_%s" % (kind, where),
+                    [T([0, v if p == pos else 0], "int32" if p == pos else "int64") for p in range(nd)], "int32+int64", "tensor")
+        for kind, v in (("ge", size), ("lt", -size - 1), ("ok_last", size - 1)):
+            k = "%s_%s" % (kind, where)
+            # python lists (converted by __getitem__ to int64 tensors)
+            add("getitem_tensor", k, [S] * pos + [{"list": [0, v]}] + [S] * (nd - pos - 1), "int64", "list")
+            add("getitem_alltensor", k, [{"list": [0, v if p == pos else 0]} for p in range(nd)], "int64", "list")
+            # 0-d tensors (converted by __getitem__ to python ints)
+            for dt in ("int64", "int32"):
+                add("getitem_int", k, [S] * pos + [{"scalar": v, "dtype": dt}] + [S] * (nd - pos - 1), dt, "tensor0d")
+    # mixed paths on the matrix dimensions: tensor row + int column, int row + tensor column
+    m, n = sh[-2], sh[-1]
+    for dt in ("int64", "int32"):
+        pre = [S] * (nd - 2)
+        for kind, r, c in (("tensor_ge_row", T([0, m], dt), {"int": 0}), ("int_ge_col", T([0, 1 % m], dt), {"int": n}),
+                           ("tensor_lt_col", {"int": 0}, T([0, -n - 1], dt)), ("int_lt_row", {"int": -m - 1}, T([0, 1 % n], dt)),
+                           ("ok", T([0, m - 1], dt), {"int": n - 1})):
+            add("getitem_mixed", kind, pre + [r, c], dt, "tensor+int")
     return cs
 
 
@@ -223,14 +281,21 @@ def ctor_cases(clsname, sh, rng):
     return cs
 
 
-def py_index(idx):
+def py_index(idx, zero=False):
+    """zero=True: the same index with every value replaced by 0 (the dtype / container probe)"""
     import torch
     out = []
     for it in idx:
         if "int" in it:
-            out.append(int(it["int"]))
+            out.append(0 if zero else int(it["int"]))
         elif "tensor" in it:
-            out.append(torch.tensor(it["tensor"]["data"], dtype=torch.long).reshape(it["tensor"]["shape"]))
+            dt = getattr(torch, it.get("dtype", "int64"))
+            data = [0 if zero else v for v in it["tensor"]["data"]]
+            out.append(torch.tensor(data, dtype=dt).reshape(it["tensor"]["shape"]))
+        elif "list" in it:
+            out.append([0 if zero else int(v) for v in it["list"]])
+        elif "scalar" in it:
+            out.append(torch.tensor(0 if zero else int(it["scalar"]), dtype=getattr(torch, it.get("dtype", "int64"))))
         else:
             out.append(slice(None))
     return tuple(out)
@@ -356,6 +421,10 @@ def execute(op, D, case):
             return torch.cat([torch.cat([D, Bm], dim=-2), torch.cat([Bm.mT, Dn], dim=-2)], dim=-1)
         return attempt(lambda: op.cat_rows(Bm, Dn, generate_roots=False, generate_inv_roots=False)), attempt(ref)
     if o.startswith("getitem"):
+        if case.get("probe"):
+            idx0 = py_index(arg["idx"], zero=True)
+            if attempt(lambda: D[idx0])[0] == "raise":
+                return None                 # torch does not accept this dtype / container as an index at all: not a cell
         idx = py_index(arg["idx"])
         return attempt(lambda: op[idx]), attempt(lambda: D[idx])
     # square-only operations on a rectangular operator
@@ -381,6 +450,7 @@ def verdict_lit(v):
     return "(VOk %s)" % shape_lit(v[1])
 
 
+COQ_DTYPE = {"int64": "DInt64", "int32": "DInt32", "int16": "DInt16", "int8": "DInt8", "uint8": "DUInt8"}
 PAIR_QUERY = {"add_op": "PAdd", "torch_add": "PAdd", "sub_op": "PSub", "torch_sub": "PSub", "mul_op": "PMul",
               "torch_mul": "PMul", "matmul_op": "PMatmul", "torch_matmul": "PMatmul"}
 
@@ -429,8 +499,15 @@ def query_lit(case, sh, rec=None):
         for k, it in enumerate(arg["idx"]):
             if "int" in it:
                 items.append("CInt %s" % common.zlit(it["int"]))
+            elif "tensor" in it and it.get("dtype") == "uint8":
+                return None          # torch reads a uint8 tensor as a legacy MASK: predicate only
             elif "tensor" in it:
-                items.append("CTensor %s %s" % (shape_lit(it["tensor"]["shape"]), common.zlist(it["tensor"]["data"])))
+                items.append("CTensor %s %s %s" % (COQ_DTYPE[it.get("dtype", "int64")], shape_lit(it["tensor"]["shape"]),
+                                                   common.zlist(it["tensor"]["data"])))
+            elif "list" in it:
+                items.append("CTensor DInt64 %s %s" % (shape_lit([len(it["list"])]), common.zlist(it["list"])))
+            elif "scalar" in it:
+                items.append("CInt %s" % common.zlit(it["scalar"]))
             else:
                 items.append("CSlice %d" % (sh[k] if k < len(sh) else 0))
         return "(QGetitem [%s])" % "; ".join(items)
@@ -465,6 +542,8 @@ def key_of(r):
     composite made by a public method)"""
     case = r["case"]
     k = {"class": r["cls"], "op": case["op"], "shape_class": case["kind"]}
+    if "idx_dtype" in case:
+        k.update({"index_dtype": case["idx_dtype"], "index_container": case["idx_container"]})
     if case["op"] in c19_pairs.PAIR_OPS:
         im = r.get("impl_of") or ["", ""]
         k.update({"rhs_class": r.get("rhs_cls"), "impl": im[0], "impl2": im[1], "left": r.get("left", "direct")})
@@ -577,7 +656,10 @@ def run_unit(args):
     if small:
         base_cases = [c for c in base_cases if c["op"] in ("matmul", "rmatmul", "matmul_lo", "ctor_matmul")]
     for case in base_cases:
-        impl, ref = execute(op, D, case)
+        ex = execute(op, D, case)
+        if ex is None:
+            continue
+        impl, ref = ex
         recs.append({"tag": tag, "expr": e, "cls": clsname, "shape": sh, "case": case, "impl": impl, "torch": ref})
 
     def pairs(L, DL, cases, left, derive):
@@ -817,7 +899,8 @@ def run(ctx):
 
     # coverage
     def cell(r):
-        return (r["cls"], r["case"]["op"], r["case"]["kind"], r.get("rhs_cls"), r.get("left"))
+        return (r["cls"], r["case"]["op"], r["case"]["kind"], r.get("rhs_cls"), r.get("left"),
+                r["case"].get("idx_dtype"), r["case"].get("idx_container"))
     cells = {}
     for r in recs:
         k = cell(r)
@@ -923,7 +1006,11 @@ def replay(rp):
         impl, ref, rcls = c19_pairs.execute_pair(op, D, case, c19_pairs.attempt_shape)
         print("right operand class:", rcls[0], "dispatches to:", impl_of(op, case["op"], rcls[1]))
     else:
-        impl, ref = execute(op, D, case)
+        ex = execute(op, D, case)
+        if ex is None:
+            print("torch does not accept this index dtype / container on the dense tensor: not a case")
+            return 0
+        impl, ref = ex
     print("class:", type(op).__name__, "shape:", list(D.shape))
     print("case:", json.dumps(rp["case"])[:400])
     print("implementation:", impl)
